@@ -164,6 +164,23 @@ RegistriesDisjoint ==
   /\ SeqSetL(st.running) \cap SeqSetL(st.ended) = {}
   /\ SeqSetL(st.cancelled) \cap SeqSetL(st.ended) = {}
 
+(* the terminal clauses of the properties (every accepted, uncancelled request made all its invocations, every task ran its
+   end callback, nothing is stuck, ...) in every reachable state in which nothing is left to do: the monitor is shown the
+   "final" record that the harness would emit there *)
+Quiescent(s) == /\ Len(s.ready) = 0
+                /\ \A t \in TaskIds : s.tk[t].st # "pend"
+FinalEv(s) == [e |-> "final", idle |-> TRUE, drained |-> TRUE, o |-> Obs(s), al |-> <<>>, G |-> GObs(s)]
+TerminalOK == Quiescent(st) => {v \in M!MonStep(g, FinalEv(st)).viol : v.kf \notin OpenKF} = {}
+
+(* sanity of the kernel model itself *)
+KernelOK ==
+  /\ \A i \in 1..Len(st.ready) : st.ready[i].k = "run" => st.tk[st.ready[i].t].st # "none"
+  /\ \A i, j \in 1..Len(st.waiters) : i # j => st.waiters[i] # st.waiters[j]
+  /\ \A t \in PT : st.tk[t].st = "pend" =>
+        (t \in SeqSetL(st.running) \/ t \in SeqSetL(st.cancelled) \/ t \in SeqSetL(st.ended) \/ st.closed)
+  /\ \A t \in TaskIds : st.tk[t].st = "done" => st.tk[t].fst = "none"
+  /\ st.nstarted = Cardinality({t \in PT : st.tk[t].st # "none"})
+
 (* ---- behaviours for replay on the real pool ------------------------------------------------------------------------ *)
 Leaf == Len(st.ready) = 0 /\ (st.budget = 0 \/ (GapOps(st) = {}))
 Cfg == [cls |-> Cls, size |-> Size]
